@@ -163,6 +163,7 @@ func runC07(c *Checker) {
 	c.floor("DIV", 5)
 	c.floor("ASSERT", 1)
 	checkBinaryUintCalls(c, rg)
+	checkNilFuncFields(c)
 	c.note("examined %d index/slice sites and %d integer divisions in %d functions", nBND, nDIV, len(w.Funcs))
 }
 
@@ -768,3 +769,104 @@ func sortStrings(s []string) {
 }
 
 var _ = strings.Contains
+
+// checkNilFuncFields: a call through a func-typed struct field is safe only if the field is set by
+// every composite literal that creates the struct, or the call is dominated by a nil check of the
+// field (e.g. the optional onFIN callback, which the relay can trigger with a FIN packet).
+func checkNilFuncFields(c *Checker) {
+	w := c.w
+	// fields set (to a non-nil constant-free value) by every literal of their owner
+	alwaysSet := map[*types.Var]bool{}
+	literalOwners := map[*types.Named][]*ssa.Alloc{}
+	for _, fn := range w.Funcs {
+		allInstrs(fn, func(in ssa.Instruction) {
+			al, ok := in.(*ssa.Alloc)
+			if !ok {
+				return
+			}
+			if n := namedOf(al.Type()); n != nil && n.Obj().Pkg() != nil && (n.Obj().Pkg().Path() == gbnPath || n.Obj().Pkg().Path() == mboxPath) {
+				literalOwners[n] = append(literalOwners[n], al)
+			}
+		})
+	}
+	isSetIn := func(al *ssa.Alloc, f *types.Var) bool {
+		for _, r := range *al.Referrers() {
+			fa, ok := r.(*ssa.FieldAddr)
+			if !ok || structFieldOf(fa) != f {
+				continue
+			}
+			for _, rr := range *fa.Referrers() {
+				if st, ok := rr.(*ssa.Store); ok && st.Addr == ssa.Value(fa) && !isNilConst(st.Val) {
+					return true
+				}
+			}
+		}
+		return false
+	}
+	n := 0
+	for _, fn := range w.Funcs {
+		allInstrs(fn, func(in ssa.Instruction) {
+			call, ok := in.(ssa.CallInstruction)
+			if !ok || call.Common().IsInvoke() || call.Common().StaticCallee() != nil {
+				return
+			}
+			f := chanField(call.Common().Value)
+			if f == nil {
+				return
+			}
+			if _, isFn := f.Type().Underlying().(*types.Signature); !isFn {
+				return
+			}
+			u := unwrapLoadAlloc(call.Common().Value).(*ssa.UnOp)
+			owner := namedOf(u.X.(*ssa.FieldAddr).X.Type())
+			if owner == nil {
+				return
+			}
+			n++
+			key := fmt.Sprintf("%s|call through %s", fnName(fn), w.fieldKey(f))
+			set, known := alwaysSet[f]
+			if !known {
+				lits := literalOwners[owner]
+				nLit := 0
+				set = true
+				for _, al := range lits {
+					// zero-value literals (returned next to an error) do not create usable objects
+					stores := 0
+					for _, r := range *al.Referrers() {
+						if fa, ok := r.(*ssa.FieldAddr); ok {
+							for _, rr := range *fa.Referrers() {
+								if st, ok := rr.(*ssa.Store); ok && st.Addr == ssa.Value(fa) {
+									stores++
+								}
+							}
+						}
+					}
+					if stores == 0 {
+						continue
+					}
+					nLit++
+					if !isSetIn(al, f) {
+						set = false
+					}
+				}
+				set = set && nLit > 0
+				alwaysSet[f] = set
+			}
+			if set {
+				c.ok("NILFN", key, instrPos(in), "the field is set by every composite literal that creates the struct")
+				return
+			}
+			guarded := hasFact(in.Block(), func(ft Fact) bool {
+				bo, ok := ft.Cond.(*ssa.BinOp)
+				if !ok || !isNilConst(bo.Y) || fieldOfValue(bo.X) != f {
+					return false
+				}
+				return (bo.Op == token.NEQ && ft.Val) || (bo.Op == token.EQL && !ft.Val)
+			})
+			c.decide(guarded, "NILFN", key, instrPos(in), "optional callback, called under a nil check",
+				"a call through the optional func field "+w.fieldKey(f)+" is not dominated by a nil check: when the option is not set the call panics (nil function)")
+		})
+	}
+	c.floor("NILFN", 4)
+	_ = n
+}
